@@ -471,6 +471,78 @@ fn stress(st: &mut Stats, rng: &mut Rng64, rounds: u64, grants: u32, engine: &st
     st.count("stress_rounds", rounds);
 }
 
+/// Many short races of ONE writer poll against ONE acknowledge on two free-running threads, released together: the stream holds
+/// one unit of credit before the round, so the poll can proceed whatever the grant does. A poll that returns Pending although credit
+/// was there all along, without the writer having been woken since the poll began, is a lost wake-up (exact final-state oracle W2;
+/// conservation W1 checked every round). Reaches the window between the writer's load of the counter and its compare-exchange,
+/// where no hook lies.
+fn race_rounds(st: &mut Stats, rounds: u64, engine: &str) {
+    let sa = verif::standalone_stream(7, 0, 8, 4);
+    let stream = Arc::new(sa.stream);
+    let ctl = Arc::new(sa.ctl);
+    let _keep = (sa.tx_msg_rx, sa.dropped_flows_rx);
+    let wakes = Arc::new(CountWaker(AtomicU64::new(0)));
+    let barrier = Arc::new(std::sync::Barrier::new(2));
+    let stop = Arc::new(std::sync::atomic::AtomicBool::new(false));
+    let granter = {
+        let (c, b, stop) = (ctl.clone(), barrier.clone(), stop.clone());
+        std::thread::spawn(move || loop {
+            b.wait();
+            if stop.load(Ordering::SeqCst) {
+                break;
+            }
+            c.acknowledge(1);
+            b.wait();
+        })
+    };
+    let waker = Waker::from(wakes.clone());
+    let cx = Context::from_waker(&waker);
+    let mut raced = 0u64;
+    for round in 0..rounds {
+        // drain to zero credit (the last poll leaves a waker registered), then put exactly one unit back
+        let mut guard = 0;
+        while let Poll::Ready(Some(())) = stream.poll_obtain_write_permission(&cx) {
+            guard += 1;
+            if guard > 64 {
+                break;
+            }
+        }
+        ctl.acknowledge(1);
+        let before = wakes.0.load(Ordering::SeqCst);
+        barrier.wait();
+        for _ in 0..(round % 48) {
+            std::hint::spin_loop();
+        }
+        let r = stream.poll_obtain_write_permission(&cx);
+        barrier.wait();
+        st.evaluations += 1;
+        let woken = wakes.0.load(Ordering::SeqCst) - before;
+        let credit = stream.verif_send_credit();
+        let took = matches!(r, Poll::Ready(Some(())));
+        if credit != 2 - u32::from(took) {
+            st.violation(Violation { signature: "credit-not-conserved|race-round".into(), detail: format!("one unit before the round, one granted during it, the writer's poll returned {r:?}: final credit {credit}"), replay: json!({"kind": "c12-race-round", "engine": engine, "round": round}) });
+        }
+        if matches!(r, Poll::Pending) {
+            raced += 1;
+            if woken == 0 {
+                st.violation(Violation {
+                    signature: "lost-wakeup|race-round".into(),
+                    detail: format!("the stream held a unit of credit before the writer's poll began and another was granted while it ran; the poll returned Pending and the writer has not been woken since (credit now {credit}): it sleeps although it could proceed"),
+                    replay: json!({"kind": "c12-race-round", "engine": engine, "round": round, "note": "real-thread race; re-run the job, the round is not deterministic"}),
+                });
+            }
+        }
+        if st.too_many_violations() {
+            break;
+        }
+    }
+    stop.store(true, Ordering::SeqCst);
+    barrier.wait();
+    granter.join().ok();
+    st.target("single_poll_vs_grant_race_rounds", rounds);
+    st.count("race_rounds_in_which_the_poll_returned_pending", raced);
+}
+
 pub fn run(p: &Params) -> (Stats, &'static str) {
     install();
     let mut st = Stats::new();
@@ -515,6 +587,9 @@ pub fn run(p: &Params) -> (Stats, &'static str) {
     if !only_close {
         let (rounds, grants) = if miri { (6, 12) } else if p.tier_thorough { (400, 20_000) } else { (60, 20_000) };
         stress(&mut st, &mut rng, rounds, grants, engine);
+        if !miri && !st.violations.iter().any(|v| v.signature.starts_with("poll-never-returns")) {
+            race_rounds(&mut st, p.share(if p.tier_thorough { 8_000_000 } else { 400_000 }), engine);
+        }
     }
     if !miri && p.tier_thorough {
         st.exhaustive.push("all total orders of hook events for initial credit 0..2 x 1-2 writer polls x {ack(1), ack(2), close, ack+close, ack+ack, app-shutdown+close, app-shutdown}".into());
